@@ -263,6 +263,13 @@ def _setop(rng, ref, univ, sortable):
         return ["union", os_, form]
     if r < 0.68:
         os_ = _operands(rng, ref, univ)
+        if rng.random() < 0.3 and len(ref.l) >= 2:
+            # an IndexedSet operand with the same number of items in another order: the result must follow self
+            xs = list(ref.l)
+            rng.shuffle(xs)
+            if rng.random() < 0.5:
+                xs[rng.randrange(len(xs))] = univ + 3
+            os_ = [["iset", xs]]
         form = "method"
         if len(os_) == 1:
             form = rng.choice(["method", "operator"] + (["roperator"] if os_[0][0] in ("set", "frozenset") else []))
